@@ -43,7 +43,7 @@ type Case struct {
 	ID     int      `json:"id"`
 	Fn     string   `json:"fn"`
 	Args   []uint64 `json:"args"`
-	State  string   `json:"state"`  // bare | dir | hole | sock | sockp (sock + a pending connection) | dirread (dir, both directory streams read to the end before)
+	State  string   `json:"state"`  // bare | dir | hole | sock | sockp (sock + a pending connection) | alias (dir + p.bin open at 6) | dirread (dir, both directory streams read to the end before)
 	Img    string   `json:"img"`    // zero | struct | ff | rand:<n>
 	Engine string   `json:"engine"` // interpreter | compiler
 	Tag    string   `json:"tag,omitempty"`
@@ -90,6 +90,9 @@ const (
 	stdinContent  = "hello wasi stdin!"
 	fileContent   = "0123456789"
 	preopenName   = "/"
+	// p.bin: its first 8 bytes are an iovec (buf = 4096, len = 4) - read into a buffer that covers a later entry of the
+	// iovec array of the same call, they redirect the next read (state alias: p.bin open at 6)
+	aliasContent = "\x00\x10\x00\x00\x04\x00\x00\x00ABCDEF"
 	rlimitASBytes = 6 << 30
 )
 
@@ -202,6 +205,7 @@ func (e *childEnv) rebuildDir() {
 	must(os.WriteFile(filepath.Join(e.dir, "f.txt"), []byte(fileContent), 0o644))
 	must(os.WriteFile(filepath.Join(e.dir, "d", "g"), []byte("g"), 0o644))
 	must(os.Symlink("f.txt", filepath.Join(e.dir, "link")))
+	must(os.WriteFile(filepath.Join(e.dir, "p.bin"), []byte(aliasContent), 0o644))
 }
 
 func must(err error) {
@@ -232,7 +236,7 @@ func (e *childEnv) exec(c Case) Result {
 		cfg = cfg.WithEnv(kv[0], kv[1])
 	}
 	isSock := c.State == "sock" || c.State == "sockp"
-	isDirState := c.State == "dir" || c.State == "hole" || c.State == "dirread"
+	isDirState := c.State == "dir" || c.State == "hole" || c.State == "dirread" || c.State == "alias"
 	if isDirState {
 		if e.dirty {
 			e.rebuildDir()
@@ -294,6 +298,9 @@ func (e *childEnv) exec(c Case) Result {
 		if c.State == "hole" {
 			open("f.txt", expsys.O_RDONLY) // fd 6
 			fsc.CloseFile(5)               // table {0,1,2,3,4,6}
+		}
+		if c.State == "alias" {
+			open("p.bin", expsys.O_RDONLY) // fd 6
 		}
 		if c.State == "dirread" {
 			for _, fd := range []uint64{3, 5} {
